@@ -14,7 +14,12 @@ Proved lemmas (unbounded, induction with ghosts on the real elaborated converter
     beat; wide read word = the last N narrow words in lanes n(i), one wide beat per N narrow beats, controller read data
     never refused while the user accepts;
   * UpConverterWriteLanes: the wide write beat holds narrow beat i in lane n(i) and the latched chunk mask enables lane n(i)
-    iff chunk i was requested (data placement in LiteX and mask replication in the adapter agree, with and without reverse).
+    iff chunk i was requested (data placement in LiteX and mask replication in the adapter agree, with and without reverse);
+    the write chunk register is one-hot at the converter position, a narrow beat is taken from the user queue iff its chunk
+    was requested;
+  * UpConverterReadLanes: the read chunk register is one-hot at the converter position, a narrow read beat is lane n(i) of
+    the wide word at the head of the read-data queue and is offered only for a requested chunk, word and command entry are
+    released exactly at the last position.
 Bounded (labelled bounded): UpConverterDrain -- after K quiet, responsive cycles following a flush- or cmd.last-terminated
 burst nothing is left inside the up-converter (every accepted read answered, every accepted write issued with its data).
 """
@@ -374,6 +379,18 @@ def up_write_lanes_contract(cfg):
         f.b(wc.source.valid) == f.g.gfull,
         Implies(f.b(wc.source.valid), And(*[And(sld(f, i) == f.g["gd%d" % i], sle(f, i) == f.g["ge%d" % i])
                                             for i in range(r)]))))
+    wfifo = L["wdata_fifo"]
+    onehot = lambda pos: (BV(1, r) << zext(pos, r)) if r > pos.size() else z3.Extract(r - 1, 0, BV(1, pos.size()) << pos)
+    c.invariant("write_chunk_register_is_one_hot_at_the_converter_position", lambda f: f(wdata_chunk) == onehot(f(demux)))
+    wr_active = lambda f: And(f.b(cb.source.valid), f.b(cb.source.we))
+    cur_sel = lambda f: (f(cb.source.sel) & onehot(f(demux))) != 0
+    c.ensures("narrow_write_beat_i_taken_from_the_user_queue_iff_chunk_i_requested", lambda f: And(
+        f.b(wfifo.source.ready) == And(wr_active(f), cur_sel(f), f.b(wc.sink.ready)),
+        Implies(And(wr_active(f), cur_sel(f)), And(f.b(wc.sink.valid) == f.b(wfifo.source.valid),
+                                                    f(wc.sink.data) == f(wfifo.source.data), f(wc.sink.we) == f(wfifo.source.we))),
+        Implies(And(wr_active(f), Not(cur_sel(f))), f.b(wc.sink.valid)),
+        Implies(Not(wr_active(f)), Not(f.b(wc.sink.valid))),
+        f.b(L["wdata_finished"]) == And(sacc(f), f(demux) == r - 1)))
     load = lambda f: And(f.b(cb.source.valid), f.b(cb.source.we), z3.Extract(r - 1, r - 1, f(wdata_chunk)) == 1)
     selbit = lambda f, i: z3.Extract(i, i, f(cb.source.sel))
     nsel = lambda f, i: z3.Extract((n(i) + 1) * nbf - 1, n(i) * nbf, f.nx(wdata_sel))
@@ -383,6 +400,66 @@ def up_write_lanes_contract(cfg):
         f(wbuf.sink.we) == (f(wc.source.we) & f(wdata_sel)), f(wbuf.sink.data) == f(wc.source.data),
         f.b(wbuf.sink.valid) == f.b(wc.source.valid)))
     c.cover("a_partial_mask_latched", lambda f: And(load(f), f(cb.source.sel) == 1), within=r + 10)
+    return c
+
+
+class UpReadHarness(Module):
+    def __init__(self, cfg):
+        from litex.soc.interconnect import stream as _stream
+        wf, wt = cfg["from"], cfg["to"]
+        aw_to = cfg.get("aw_to", 3)
+        self.pf = LiteDRAMNativePort("both", aw_to + log2_int(wt // wf), wf)
+        self.pt = LiteDRAMNativePort("both", aw_to, wt)
+        with capture_locals(LiteDRAMNativePortUpConverter.__init__, _stream._DownConverter.__init__) as cap:
+            self.submodules.conv = LiteDRAMNativePortUpConverter(self.pf, self.pt, reverse=cfg.get("reverse", False))
+        self.L = cap.of(self.conv)
+        dn = cap.calls["_DownConverter.__init__"]
+        assert len(dn) == 1, "one narrowing (rdata) LiteX converter expected"
+        self.Lr = dn[0]
+
+
+def up_read_lanes_contract(cfg):
+    """lemmas (unbounded) on the up-converter's read data path: the chunk register stays one-hot at the position of the
+    read StrideConverter, a narrow read beat offered to the user is lane n(i) of the wide word at the head of the read-data
+    queue for the current position i and is offered only if chunk i was requested by the command at the head of the
+    command queue (not-requested chunks are skipped), the wide word and its command entry are released exactly with the
+    last position."""
+    h = UpReadHarness(cfg)
+    pf, pt, L = h.pf, h.pt, h.L
+    r = cfg["to"] // cfg["from"]
+    rev = cfg.get("reverse", False)
+    wf = cfg["from"]
+    n = lambda i: (r - 1 - i) if rev else i
+    free = [pf.cmd.valid, pf.cmd.we, pf.cmd.addr, pf.cmd.last, pf.cmd.first, pf.wdata.data, pf.wdata.we, pf.wdata.valid,
+            pf.rdata.ready, pf.flush, pt.cmd.ready, pt.wdata.ready, pt.rdata.valid, pt.rdata.data]
+    c = Contract("UpConverterReadLanes", h, free, cfg=cfg)
+    rc, cb, rfifo, rchunk = L["rdata_converter"], L["cmd_buffer"], L["rdata_fifo"], L["rdata_chunk"]
+    mux = h.Lr["mux"]
+    onehot = lambda pos: (BV(1, r) << zext(pos, r)) if r > pos.size() else z3.Extract(r - 1, 0, BV(1, pos.size()) << pos)
+    c.invariant("read_chunk_register_is_one_hot_at_the_converter_position", lambda f: And(
+        ULT(zext(f(mux), 8), BV(r, 8)), f(rchunk) == onehot(f(mux))))
+    rd_active = lambda f: And(f.b(cb.source.valid), Not(f.b(cb.source.we)))
+    cur_sel = lambda f: (f(cb.source.sel) & onehot(f(mux))) != 0
+    step = lambda f: And(f.b(rc.source.valid), f.b(rc.source.ready))
+
+    def lane(f):
+        d = f(rfifo.source.data)
+        out = z3.Extract(wf - 1, 0, d)
+        for i in range(r):
+            out = If_(zext(f(mux), 8) == i, z3.Extract((n(i) + 1) * wf - 1, n(i) * wf, d), out)
+        return out
+    c.ensures("narrow_read_beat_is_lane_n_i_of_the_wide_word_and_only_for_a_requested_chunk", lambda f: And(
+        f.b(pf.rdata.valid) == And(rd_active(f), cur_sel(f), f.b(rfifo.source.valid)),
+        Implies(f.b(pf.rdata.valid), f(pf.rdata.data) == lane(f))))
+    c.ensures("position_advances_on_delivery_or_skip_only_and_releases_word_and_command_at_the_last_position", lambda f: And(
+        step(f) == And(rd_active(f), f.b(rfifo.source.valid), Or(Not(cur_sel(f)), f.b(pf.rdata.ready))),
+        f.b(L["rdata_finished"]) == And(step(f), f(mux) == r - 1),
+        And(f.b(rfifo.source.valid), f.b(rfifo.source.ready)) == And(step(f), f(mux) == r - 1),
+        f.b(cb.source.ready) == Or(f.b(L["rdata_finished"]), f.b(L["wdata_finished"]))))
+    c.ensures("controller_read_data_goes_into_the_queue_unchanged", lambda f: And(
+        f.b(rfifo.sink.valid) == f.b(pt.rdata.valid), f(rfifo.sink.data) == f(pt.rdata.data),
+        f.b(pt.rdata.ready) == f.b(rfifo.sink.ready)))
+    c.cover("a_requested_chunk_delivered_at_the_last_position", lambda f: And(f.b(pf.rdata.valid), f(mux) == r - 1), within=r + 12)
     return c
 
 
@@ -419,6 +496,7 @@ def tasks(tier):
                         timeout_ms=1200000, oneshot=True))
     for cfg in UP_LANE_CFGS:
         out.append(dict(fn="up_write_lanes_contract", cfg=cfg, modes=["inductive", "cover", "difftest"], weight=2))
+        out.append(dict(fn="up_read_lanes_contract", cfg=cfg, modes=["inductive", "cover", "difftest"], weight=2))
     for cfg in DOWN_DATA_CFGS:
         out.append(dict(fn="down_data_contract", cfg=cfg, modes=["inductive", "cover", "difftest"], weight=2))
     return out
